@@ -67,6 +67,7 @@ pub fn ref_expr(e: &MExpr) -> String {
             MExpr::Float(s) => format!("(float {})", hex(&format!("-{}", float_canon(s)))),
             x => format!("(neg {})", ref_expr(x)),
         },
+        MExpr::Un(op, x) => format!("(un {} {})", if *op == "!" { "not" } else { "bitnot" }, ref_expr(x)),
         MExpr::Paren(x) => ref_expr(x),
         MExpr::Cast(_, x) => ref_expr(x),
         MExpr::Call(f, args) => format!("(call {f} {})", args.iter().map(ref_expr).collect::<Vec<_>>().join(" ")),
